@@ -6,11 +6,11 @@ META = dict(
     category='exploration',
     engine='Eol',
     technique='TLA+ spec Eol: TLC exhaustive on run-length contents around the 8 KiB probe limit + TLC-judged records of real check-out/snapshot under each eol-conversion mode',
-    text='File content is modelled as a run-length list over {text, CR, LF, NUL} with run lengths 1, 2 and 8190..8193 (the probe limit is 8192). TLC proves for every content of up to 4 runs (thorough: 6 runs, 993 k contents) that the transcribed probe rule (incl. CR at the limit), ToLf and ToCrlf meet the contracts: binary content passes through, LF text is written as CRLF, snapshot(check-out(c)) = c for binary or LF-normalised c, and LF->CRLF expansion never makes a text file probe as binary; two seeded bugs (conversion of binary files, no CR-at-limit rule) fail. The same exhaustive domain (up to 3 runs, thorough 4) plus seeded random contents of up to 7 runs are then taken through a real LocalWorkingCopy check-out and snapshot (and a user-written file + snapshot) under each of none / input / input-output, and every record is judged by TLC against the same contracts.',
+    text='File content is modelled as a run-length list over {text, CR, LF, NUL} with run lengths 1, 2 and 8190..8193 (the probe limit is 8192). TLC proves for every content of up to 4 runs (thorough: 5 runs) that the transcribed probe rule (incl. CR at the limit), ToLf and ToCrlf meet the contracts: binary content passes through, LF text is written as CRLF, snapshot(check-out(c)) = c for binary or LF-normalised c, and LF->CRLF expansion never makes a text file probe as binary; two seeded bugs (conversion of binary files, no CR-at-limit rule) fail. The same exhaustive domain (up to 3 runs, thorough 4) plus seeded random contents of up to 7 runs are then taken through a real LocalWorkingCopy check-out and snapshot (and a user-written file + snapshot) under each of none / input / input-output, and every record is judged by TLC against the same contracts.',
     note='Input space bounded (token classes, run-length vocabulary) - hence exploration. "Binary" means an indicator (NUL, CR not followed by LF) within the 8192-byte probe window as documented in eol.rs; text bytes are a single letter. eol.rs functions are pub(crate), so the binding goes through check-out and snapshot; snapshot is made to re-read each file by touching its mtime. Trusted: TLC, the byte<->run-length projection in harness/jjconf/src/bin/wc/eol.rs.',
     design='4 C29',
 )
-READY = False
+READY = True
 LEVEL = META["category"]
 
 P = 8192
@@ -47,7 +47,7 @@ def run(ctx):
     trace = ctx.path("c29.ndjson")
     maxruns = ctx.q(3, 4)
     wcutil.harness_tmp(ctx, ["eol", "--out", trace, "--seed", ctx.seed, "--maxruns", maxruns,
-                             "--random", ctx.q(300, 4000)], timeout=ctx.q(600, 1500))
+                             "--random", ctx.q(300, 2000)], timeout=ctx.q(600, 1500))
     j = vf.judge_records(ctx, "Trace_Eol", trace, nontrivial_fn=nontrivial, sig_fn=sig, chunk=ctx.q(1500, 6000))
     recs = j["records"]
     dom = [x for x in recs if x.get("op") == "domain"]
